@@ -27,7 +27,7 @@ for d in seeded/*/ selftest/mutants/*/; do
   git -C "$wt" checkout -q -- . && git -C "$wt" clean -fdq
   if ! git -C "$wt" apply "/verif/$d/patch.diff" 2>/dev/null; then echo "$n $id PATCH-DOES-NOT-APPLY" >> $root/results.txt; continue; fi
   if python3 -c "import json,sys; sys.exit(0 if any(c['property_id']=='$id' for c in json.load(open('MANIFEST.json'))['checks']) else 1)"; then
-    res=$(bin/govc check -repo "$wt" -contracts $root/contracts -baseline-dir $root/obligations -evidence $root/ev "$id" 2>&1)
+    res=$(GOVC_ALT_ROOT=$root/scratch bin/govc check -repo "$wt" -contracts $root/contracts -baseline-dir $root/obligations -evidence $root/ev "$id" 2>&1)
     if echo "$res" | grep -q "^VIOLATION property=$id"; then
       ob=$(echo "$res" | grep "^   obligation" | head -2 | sed 's/^   obligation //' | cut -c1-110 | tr '\n' ';')
       echo "$n $id DETECTED $ob" >> $root/results.txt
@@ -39,7 +39,7 @@ for d in seeded/*/ selftest/mutants/*/; do
   fi
 done
 git -C /repo worktree remove --force "$wt"
-rm -rf $root/ev /verif/replay/*-alt* /verif/work/*-alt*
+rm -rf $root/ev $root/scratch
 cat $root/results.txt
 if [ "$mode" = "thorough-corpus" ]; then
   : # called by ./check <id> thorough: the committed table is only read, never rewritten
